@@ -435,8 +435,11 @@ def threadsafe_async_cache(
                         # Wake up any waiting tasks
                         event.set()
                         # Allow garbage collection and/or another loop
-                        # to take over caching if this failed
-                        del events[key]
+                        # to take over caching if this failed. Another
+                        # loop may have taken over in the meantime, only
+                        # remove the marker if it is still this task's.
+                        if events.get(key, (None, None))[1] is event:
+                            del events[key]
                 return result
 
             # Need to wait for another task, possibly across threads
